@@ -246,21 +246,30 @@ func genStockQR(g *vlib.G) {
 				shapes = append(shapes, [2]int{m, n})
 			}
 		}
-		shapes = append(shapes, [2]int{127, 127}, [2]int{128, 128}, [2]int{129, 129}, [2]int{130, 130}, [2]int{130, 65}, [2]int{65, 130},
-			[2]int{129, 33}, [2]int{33, 129}, [2]int{161, 129}, [2]int{129, 161}, [2]int{193, 130})
+		for _, m := range []int{31, 32, 33, 63, 64, 65, 127, 128, 129, 130} {
+			for _, n := range []int{31, 32, 33, 63, 64, 65, 127, 128, 129, 130} {
+				if m > 100 || n > 100 {
+					shapes = append(shapes, [2]int{m, n})
+				}
+			}
+		}
+		shapes = append(shapes, [2]int{161, 129}, [2]int{129, 161}, [2]int{193, 130})
 	}
+	// the sub-grid on which RQ runs in the quick tier
+	quickAll := map[[2]int]bool{{127, 127}: true, {128, 128}: true, {129, 129}: true, {130, 130}: true, {130, 65}: true, {65, 130}: true,
+		{129, 33}: true, {33, 129}: true, {161, 129}: true, {129, 161}: true, {193, 130}: true}
 	fams := pickFams(generalFams(200, false), "dd", "had", "rowgraded", "zerocol100", "sparse", "cluster", "signmix")
 	if !g.Thorough() {
 		fams = pickFams(generalFams(66, false), "dd", "had", "sparse", "cluster")
 	}
-	kinds := []fkind{kindQR, kindLQ}
-	if g.Thorough() {
-		kinds = append(kinds, kindRQ)
-	}
+	kinds := []fkind{kindQR, kindLQ, kindRQ}
 	for _, kd := range kinds {
 		for _, sh := range shapes {
 			for _, f := range fams {
 				kd, m, n, f := kd, sh[0], sh[1], f
+				if !g.Thorough() && kd.name == "Dgerqf" && !quickAll[[2]int{m, n}] {
+					continue // RQ (no Dorm/Dorg part) on the sub-grid only in the quick tier
+				}
 				if (f.name == "sparse" || f.name == "signmix") && g.Thorough() && !(sparseSize[m] && sparseSize[n]) {
 					continue // the sparse family fails (known Dlarft defect) and every failure is re-run four times: keep it small
 				}
